@@ -159,6 +159,13 @@ class Check:
                 if any(k == v.klass for k, _ in vd.violations):
                     ok += 1
                     last = [d for k, d in vd.violations if k == v.klass][0]
+            if ok < 2 and (case.get("children") or v.case.get("children")):
+                # real child processes (pipe targets, prepipes) have their own timing, which the simulator does not
+                # control: such a run is not covered by the determinism claim and a one-off is neither a violation nor
+                # harness trouble; it is counted
+                sys.stderr.write("note: class %s with real children did not reproduce (%d/2) - not reported\n" % (v.klass, ok))
+                self.probes["unreproducible_with_real_children"] = self.probes.get("unreproducible_with_real_children", 0) + 1
+                continue
             if ok < 2:
                 # does not reproduce from its own replay: harness error, never a violation
                 sys.stderr.write("HARNESS: violation class %s did not reproduce (%d/2) - not reported\n%s\n" % (
